@@ -482,7 +482,9 @@ func init() { h.Reg("c15", check) }
 
 // ---- generators -----------------------------------------------------------------------------------------
 
-var hostile = []string{"'", "\"", "\\", ".", " :- ", "). halt. %", "\n", "\x00", "?", "/*", "*/", "0'", "a", "é", "日", "😀", " ", "\ufffd", ",", "|", "[]", "{}", "X", "_", "%", "\t", "\r", "\u00a0", "\u2028", "'\\''", "\\x41\\", ". :- halt.", "\"\"", "`"}
+var hostile = []string{"'", "\"", "\\", ".", " :- ", "). halt. %", "\n", "\x00", "?", "/*", "*/", "0'", "a", "é", "日", "😀", " ", "\ufffd", ",", "|", "[]", "{}", "X", "_", "%", "\t", "\r", "\u00a0", "\u2028", "'\\''", "\\x41\\", ". :- halt.", "\"\"", "`",
+	// boundary scalars of the encoding and of the atom representation
+	"\U0010FFFF", "\U0010FFFE", "\uD7FF", "\uE000", "\uFFFF", "\U00010000", "\x7f", "\u0080", "\u07FF", "\u0800"}
 
 func u(t *rapid.T, n int, l string) int { return int(rapid.Uint64().Draw(t, l) % uint64(n)) }
 
